@@ -54,15 +54,15 @@ type diffEvent struct {
 	AgainLinks string `json:"againlinks"`
 	// node diffs repeated with one Load failing once: how many were run, how many returned an error, how many reported success
 	// with a result other than that of the undisturbed run
-	FaultRuns int `json:"faultruns"`
-	FaultErrs int `json:"faulterrs"`
-	FaultBad  int `json:"faultbad"`
-	Sync     string `json:"sync"`
-	ELoads   int    `json:"eloads"` // distinct names loaded by DiffIter
-	LLoads   int    `json:"lloads"` // distinct names loaded by DiffLinks
-	Counted  bool   `json:"counted"`
-	Stores   string `json:"stores"` // "one" | "two": the new version is opened on a mirror store holding the same nodes under another prefix
-	DCache   bool   `json:"dcache"` // a fresh NodeCache is attached to both trees while they are diffed
+	FaultRuns int    `json:"faultruns"`
+	FaultErrs int    `json:"faulterrs"`
+	FaultBad  int    `json:"faultbad"`
+	Sync      string `json:"sync"`
+	ELoads    int    `json:"eloads"` // distinct names loaded by DiffIter
+	LLoads    int    `json:"lloads"` // distinct names loaded by DiffLinks
+	Counted   bool   `json:"counted"`
+	Stores    string `json:"stores"` // "one" | "two": the new version is opened on a mirror store holding the same nodes under another prefix
+	DCache    bool   `json:"dcache"` // a fresh NodeCache is attached to both trees while they are diffed
 	// large pairs: counts only
 	Big    bool   `json:"big"`
 	ReachO int    `json:"reacho"`
@@ -732,11 +732,23 @@ func diffCase(id int, seed int64, out *json.Encoder, big bool) {
 		}
 		if lres == "ok" && ev.CbRes == "ok" {
 			nm, o2 = reopenBoth()
-			r.entryDiff(nm, o2, 1, 0)
-			guard(func() error {
-				return nm.DiffLinks(ctx, o2, func(bool, interface{}) (bool, error) { return false, nil })
-			})
+			stopLinks := func() {
+				guard(func() error {
+					return nm.DiffLinks(ctx, o2, func(bool, interface{}) (bool, error) { return false, nil })
+				})
+			}
+			// each full run directly follows a stopped one (of either kind)
+			if rng.Intn(2) == 0 {
+				r.entryDiff(nm, o2, 1, 0)
+			} else {
+				stopLinks()
+			}
 			cb2, res2, _ := r.entryDiff(nm, o2, 0, 0)
+			if rng.Intn(2) == 0 {
+				r.entryDiff(nm, o2, 1, 0)
+			} else {
+				stopLinks()
+			}
 			a2, r2, lres2, _ := r.linkDiff(nm, o2)
 			ev.AgainCb, ev.AgainLinks = "ok", "ok"
 			if res2 != "ok" || fmt.Sprint(cb2) != fmt.Sprint(ev.Cb) {
